@@ -12,6 +12,7 @@ NCORES = int(os.environ.get("VERIF_JOBS", "0") or 0) or (os.cpu_count() or 4)
 MEM_KB = int(os.environ.get("VERIF_MEM_KB", str(14 * 1024 * 1024)))
 
 _workdir = None
+T_START = time.time()
 def workdir():
     global _workdir
     if _workdir is None:
@@ -207,7 +208,7 @@ def load_known_findings():
 class Report:
     """Collects obligations from several engines and writes evidence + exit code."""
     def __init__(self, prop, level="proof"):
-        self.prop = prop; self.level = level; self.t0 = time.time()
+        self.prop = prop; self.level = level; self.t0 = T_START
         self.groups = []          # dict(backend, obligations, discharged, bounded, wall, note)
         self.violations = []      # dict(obligation, detail, replay_input, replayed)
         self.undecided = []       # strings
@@ -215,6 +216,7 @@ class Report:
         self.trusted = []; self.extra = {}
         self.known = [k for k in load_known_findings() if k["prop"] == prop]
         self.known_hits = []
+        self._replay_cache = {}
 
     def assume(self, *a):
         for x in a:
@@ -273,8 +275,13 @@ class Report:
             nviol += 1
             rp = v.get("replay")
             if rp is None and replayer is not None:
-                try: rp = replayer(v)
-                except Exception as e: rp = dict(replayed=False, error=repr(e))
+                fam = re.sub(r"[-_]?N?\d+.*$", "", v["job"])      # one native replay per job family
+                if fam in self._replay_cache:
+                    rp = dict(self._replay_cache[fam]); rp["note_shared"] = "same replay as first violation of this job family"
+                else:
+                    try: rp = replayer(v)
+                    except Exception as e: rp = dict(replayed=False, error=repr(e))
+                    self._replay_cache[fam] = rp
             rp = rp or dict(replayed=False)
             path = os.path.join(VERIF, "replays", "%s-%s.json" % (self.prop, re.sub(r"[^A-Za-z0-9_.-]", "_", key))[:180])
             body = dict(property=self.prop, failed_obligation=v["obligation"], job=v["job"], description=v["desc"],
